@@ -163,7 +163,11 @@ theorem step_other_ansv (a : Agent) (e : Ev) (hst : a.started = true) (hk : keep
     (hne : ∀ now la src m, e ≠ .inbound now la src m) : (step a e).1.ansv = a.ansv := by
   cases e with
   | addLocal now c => simp [step]
-  | addRemote now c => simp only [step]; split <;> simp
+  | addRemote now c =>
+    simp only [step]
+    split
+    · simp
+    · split <;> simp
   | start now c ru rp =>
     rw [C03.step_start_eq]
     split
